@@ -378,6 +378,30 @@ _EXTRA = {
 for _k, _v in _EXTRA.items():
     CHECKS[_k]["rule"] += _v
 
+# seventh round
+_EXTRA7 = {
+    "C02": " Seventh round: call sequences over RELATED keys of the two parameter sets (for an accepted Falcon-512 triple with key h: "
+           "the Falcon-1024 keys h||0^512, h||h, h(x^2); for a Falcon-1024 triple: its first half and its even coefficients as "
+           "Falcon-512 keys), before and after the valid triple, every sequence in a fresh thread.",
+    "C03": " Seventh round: the related-variant key sequences of C02 under the panic monitor (fresh thread per sequence).",
+    "C05": " Seventh round: round trips AFTER use: a public key that has verified and a secret key that has signed must still equal "
+           "(crate's ==, both directions) their freshly decoded encodings and an unused decoded copy; fingerprint-colliding secret-key "
+           "pairs now come from two-parameter lattice variants searched with collide.rs (byte sum/xor, DefaultHasher halves, FNV, CRC-32, "
+           "Adler-32, djb2, prefix).",
+    "C06": " Seventh round: lattice variants of valid secret keys (F + c x^j f, in range) must re-encode to themselves; fingerprint-"
+           "colliding pairs of valid public-key and signature encodings decoded A,B,A.",
+    "C07": " Seventh round: LARGE encodings (n = 512..16384; coefficients at the edge, uniform, small, zero) whose bit length crosses "
+           "2^15, 2^16 and 2^17, with budgets exactly fitting, one byte short and generous, and the decoder on these strings with "
+           "single-bit flips, a set padding bit and one byte cut off.",
+    "C08": " Seventh round: generator-window pairs (RNG hook): two generator streams that agree only on a window of at most 32 output "
+           "positions ([0,1) .. [0,32), [8,40), [36,68), ...) and are independent everywhere else must give different salts, wherever "
+           "the salt is drawn from.",
+    "C09": " Seventh round: BerExp at every multiple of ln 2 moved by up to 4 ulps either way (k = 0..70), with the bytes at, next to, "
+           "at half of and at twice the threshold.",
+}
+for _k, _v in _EXTRA7.items():
+    CHECKS[_k]["rule"] += _v
+
 NOT_APPLICABLE = {}
 
 ENGINES = [
